@@ -130,3 +130,90 @@ Theorem C09_modules_unchecked_refuted :
     ~ NoDup (map (module_of [102;105;101;108;100;95]%N) cs).
 Proof. exact modules_unchecked_refuted. Qed.
 Print Assumptions C09_modules_unchecked_refuted.
+
+(* (e) model attributes of a schema composed with allOf: merging (Merge.v, C15) x python-name conflict resolution (ProcProps.v) *)
+Require Import OPC.PyLit OPC.Merge OPC.ProcProps OPC.ProcPropsThm.
+
+Theorem C09_process_names_exact : forall o prefix ins out,
+  process o prefix ins = POk out ->
+  map i_name out = in_names ins /\ NoDup (map i_name out) /\
+  forall n, In n (map i_name out) <-> In n (map i_name ins).
+Proof. exact process_names_exact. Qed.
+Print Assumptions C09_process_names_exact.
+
+Theorem C09_process_python_names_distinct : forall o prefix ins,
+  ins_default prefix ins = true -> g_no_raw_fallback prefix (in_names ins) = true ->
+  process o prefix ins <> PErrName /\ process o prefix ins <> PErrRef /\ g_quiet o prefix ins = true /\
+  forall out, process o prefix ins = POk out ->
+    map i_name out = in_names ins /\
+    map i_py out = map (py_default prefix) (in_names ins) /\ NoDup (map i_py out).
+Proof. exact process_python_names_distinct. Qed.
+Print Assumptions C09_process_python_names_distinct.
+
+(* no static guard, any incoming python names: a run without raw-name fallback ends with pairwise distinct python names *)
+Theorem C09_process_quiet_distinct : forall o prefix ins out,
+  process o prefix ins = POk out -> g_quiet o prefix ins = true -> NoDup (map i_py out).
+Proof. exact process_quiet_distinct. Qed.
+Print Assumptions C09_process_quiet_distinct.
+
+(* no guard at all: what each _add_if_no_conflict step guarantees *)
+Theorem C09_add_pp_guarantee : forall o prefix st i st' q,
+  add_pp_ev o prefix st i = POk (st', q) ->
+  exists c attrs',
+    st_attrs st' = put_attr c attrs' /\ a_name c = i_name i /\
+    (a_py c = merged_py st i \/ a_py c = py_raw prefix (i_name i)) /\
+    length attrs' = length (st_attrs st) /\
+    forall k x x', nth_error (st_attrs st) k = Some x -> nth_error attrs' k = Some x' ->
+      (x' = x \/ x' = attr_raw prefix x) /\
+      (a_name x <> i_name i -> a_py x = merged_py st i -> a_py x' <> a_py c) /\
+      (a_name x <> i_name i -> a_py c = merged_py st i -> a_py x' <> a_py c).
+Proof. exact add_pp_guarantee. Qed.
+Print Assumptions C09_add_pp_guarantee.
+
+(* the composed schema of a document: its run is the run on the flat incoming list, so the list-level theorems apply *)
+Theorem C09_process_doc_flat : forall o prefix d out,
+  process_doc o prefix d = POk out ->
+  exists ins, doc_inputs o prefix d = Some ins /\ process o prefix ins = POk out /\
+              g_quiet o prefix ins = g_quiet_doc o prefix d.
+Proof. exact process_doc_flat. Qed.
+Print Assumptions C09_process_doc_flat.
+
+Theorem C09_process_doc_quiet_distinct : forall o prefix d out,
+  process_doc o prefix d = POk out -> g_quiet_doc o prefix d = true -> NoDup (map i_py out).
+Proof. exact process_doc_quiet_distinct. Qed.
+Print Assumptions C09_process_doc_quiet_distinct.
+
+Theorem C09_process_doc_python_names_distinct : forall o prefix d ins out,
+  g_parents prefix d = true -> doc_inputs o prefix d = Some ins ->
+  g_no_raw_fallback prefix (in_names ins) = true ->
+  process_doc o prefix d = POk out ->
+  map i_name out = in_names ins /\ map i_py out = map (py_default prefix) (in_names ins) /\ NoDup (map i_py out).
+Proof. exact process_doc_python_names_distinct. Qed.
+Print Assumptions C09_process_doc_python_names_distinct.
+
+(* the guards are necessary: a merge step turns a state with distinct python names into one with a duplicate (attr_rename_unchecked) *)
+Theorem C09_process_step_distinct_refuted :
+  exists ins i out_before out,
+    process w_o w_fp ins = POk out_before /\ NoDup (map i_py out_before) /\
+    In (i_name i) (map i_name ins) /\
+    process w_o w_fp (ins ++ [i]) = POk out /\ ~ NoDup (map i_py out) /\
+    g_quiet w_o w_fp (ins ++ [i]) = false.
+Proof. exact process_step_distinct_refuted. Qed.
+Print Assumptions C09_process_step_distinct_refuted.
+
+(* non-vacuity: a merge whose base is the new declaration together with a raw-name fallback; and the static guard with a merge *)
+Theorem C09_process_merge_fallback :
+  process w_o w_fp [w_in s_startDate MStr; w_in s_start_date MStr; w_in s_startDate MDate]
+  = POk [mk_inp s_startDate s_startDate (w_P MDate); mk_inp s_start_date s_start_date (w_P MStr)] /\
+  merged_py (mk_st [mk_attr s_startDate s_startDate; mk_attr s_start_date s_start_date]
+                   [(s_startDate, w_P MStr); (s_start_date, w_P MStr)]) (w_in s_startDate MDate) = s_start_date /\
+  g_quiet w_o w_fp [w_in s_startDate MStr; w_in s_start_date MStr; w_in s_startDate MDate] = false.
+Proof. exact process_merge_fallback. Qed.
+Print Assumptions C09_process_merge_fallback.
+
+Theorem C09_process_guard_nonvacuous :
+  let ins := [w_in s_startDate MStr; w_in s_endTime MInt; w_in s_startDate MDate] in
+  ins_default w_fp ins = true /\ g_no_raw_fallback w_fp (in_names ins) = true /\
+  exists out, process w_o w_fp ins = POk out /\ length out = 2%nat /\ base_is_new (w_P MStr) (w_P MDate) = true.
+Proof. exact process_guard_nonvacuous. Qed.
+Print Assumptions C09_process_guard_nonvacuous.
